@@ -53,6 +53,10 @@ pub struct Workload {
     /// `keep` then count in this list) - holes whose sizes are unrelated to the round's requests
     #[serde(default)]
     pub setup_blocks: Vec<usize>,
+    /// every mremap the allocator issues is refused (ENOSYS, what a seccomp filter without mremap answers): giving
+    /// back the tail of a segment and resizing a directly mapped block then go their munmap / copy ways
+    #[serde(default)]
+    pub deny_mremap: bool,
 }
 
 const MIB: usize = 1 << 20;
@@ -170,6 +174,9 @@ pub fn run_workload(w: &Workload, op_budget: u64) -> Result<RunStats, Failure> {
     sc::verif::install();
     sc::verif::clear_plan();
     sc::verif::set_mmap_hint_cycle(w.placement.clone());
+    if w.deny_mremap {
+        sc::verif::plan(vec![sc::verif::Rule { nr: Some(sc::nr::MREMAP), nth: None, action: sc::verif::Action::ForceRet(sc::verif::neg_errno(libc::ENOSYS)), times: usize::MAX }]);
+    }
     sc::verif::log_begin();
     let base = held();
     let mut a = Dlmalloc::new();
@@ -348,6 +355,7 @@ pub fn check_workload(ctx: &Ctx, w: &Workload) -> CaseResult {
     rep.class_if(large == sizes.len(), "all-large");
     rep.class_if(classes >= 2, "mixed-size-classes");
     rep.class_if(!w.early_free.is_empty(), "interleaved-frees");
+    rep.class_if(w.deny_mremap, "every-mremap-refused");
     rep.class_if(!w.resize.is_empty(), "with-realloc");
     rep.class_if(w.blocks.iter().any(|b| b.1 > 4), "over-aligned-blocks");
     rep.class_if(w.zeroed != 0, "with-calloc");
@@ -436,7 +444,7 @@ pub fn workload_strategy() -> impl Strategy<Value = Workload> {
                 cur[i] = new;
                 resize.push((k, new));
             }
-            Workload { blocks, early_free, free_seed, free_mode, placement, resize, zeroed, keep, setup_scale, setup_blocks: vec![] }
+            Workload { blocks, early_free, free_seed, free_mode, placement, resize, zeroed, keep, setup_scale, setup_blocks: vec![], deny_mremap: free_seed % 5 == 0 }
         })
 }
 
@@ -454,7 +462,7 @@ pub fn huge_strategy() -> impl Strategy<Value = Workload> {
     )
         .prop_map(|(setup_blocks, blocks, ks, placement, free_mode)| {
             let keep = (0..setup_blocks.len()).map(|j| (ks[j % 4], j as u16)).collect();
-            Workload { blocks, early_free: vec![], free_seed: 0, free_mode, placement, resize: vec![], zeroed: 0, keep, setup_scale: 100, setup_blocks }
+            Workload { blocks, early_free: vec![], free_seed: 0, free_mode, placement, resize: vec![], zeroed: 0, keep, setup_scale: 100, setup_blocks, deny_mremap: false }
         })
 }
 
